@@ -166,7 +166,7 @@ def run_case(ctx, case):
             return
     rec.case(case, nontrivial=(raising > 0 or W is not None))
     # non-mutating operations never modify their operands
-    if curve.ctrlpoints is not None:
+    if curve.ctrlpoints is not None and not c.get("mutators_only"):
         other_data = c.get("other")
         other = make_curve(other_data["U"], [tuple(q) for q in other_data["P"]], other_data["W"]) if other_data else copy(curve)
         s1, s2 = curve_state(curve), curve_state(other)
@@ -259,6 +259,23 @@ def gen_ops(rng, drv, st, length):
 def run(ctx):
     rng = ctx["rng"]
     maxlen = budget(ctx, 8, 20)
+    # lossy refits of rational curves with very unequal weights: the refitted denominator may change sign, the weights
+    # setter then refuses it *after* the new knot vector and points have been computed (atomicity window of update())
+    for i in range(budget(ctx, 10, 80)):
+        p = rng.choice([1, 2, 2, 3])
+        ks = sorted(rng.sample(GRID, rng.randint(2, 3)))
+        U = [F(0)] * (p + 1) + ks + [F(1)] * (p + 1)
+        n = len(U) - p - 1
+        small = F(1, rng.choice([50, 100, 1000]))
+        W = [F(1)] + [small] * (n - 2) + [F(1)]
+        if rng.random() < 0.4:
+            W[rng.randrange(1, n - 1)] = F(rng.choice([1, 5, 20]))
+        P = rand_points(rng, n, rng.choice([1, 2]), ints=True)
+        tol = rng.choice([None, F(10), F(1000)])
+        ops = [("remove", list(ks), tol)] if rng.random() < 0.6 else [("remove", ks[:1], tol), ("remove", ks[1:], tol)]
+        if p >= 2 and rng.random() < 0.5:
+            ops.append(("degdec", F(1), None))
+        run_case(ctx, ser(dict(kind="seq", U=U, P=P, W=W, ops=ops, other=None, mutators_only=True)))
     for i in range(budget(ctx, 40, 500)):
         U, P, W = rand_curve(rng, pmax=2, nintmax=2, dim=rng.choice([1, 1, 2]), force_zero=(i % 8 == 0))
         st = (tuple(U), tuple(P), None if W is None else tuple(W))
